@@ -26,7 +26,7 @@ EXPECT = ["ccube.count/extra-axes-shape-extra-extents", "xcube.count/extra-axes-
           "xcube.count/extra-axes-block-equals-cube-of-1d-slices-values", "xcube.valid_count/extra-axes-block-equals-cube-of-1d-slices-missing-cells",
           "xcube.sum/extra-axes-block-equals-cube-of-1d-slices-values", "xcube.mean/extra-axes-block-equals-cube-of-1d-slices-values",
           "xcube.stddev/extra-axes-block-equals", "xcube.min/extra-axes-block-equals", "xcube.max/extra-axes-block-equals",
-          "extra-axes-shape-with-inferred-category-extents", "extra-axes-no-raise",
+          "extra-axes-shape-with-inferred-category-extents", "extra-axes-no-raise", "extra-axes-after-mutation-of-a-dimension-block-equals-bruteforce",
           "ccubes.ccube.product/ensures-each-coordinate-combination-exactly-once", "ccubes.ccube.product/ensures-first-dimension-outermost",
           "ccubes.ccube.product/ensures-data-is-the-1d-slice-at-its-coordinates",
           "xcubes.xcube.product/ensures-each-coordinate-combination-exactly-once",
